@@ -10,9 +10,15 @@
      S2   no second HTTP/2 dial while an HTTP/2 attempt to the origin is in flight  (c04_monitor_S2)
      drop a non-multiplexed connection is only discarded closed, expired or surplus (c04_monitor_drop)
      np   no origin has a waiting request and a usable parked connection            (c04_monitor_np)
+   In addition (pool/SpecC04d.v, proofs pool/FramesC04d.v + pool/ProofsC04d.v; check_prop 4 and 40 demand it too):
+     dial no dial STARTS while the idle list of the request's origin (snapshot before the op) shows a
+          usable connection - open for the tracker, not over the idle timeout         (c04_no_dial_while_idle)
+   It needs no D6 exemption (in the D6 window the shared handle is out of the idle list); only a disabled
+   pool is exempt.  c04_dial_example: it rejects the trace of the seeded change that drops the waiters
+   behind the first one on an HTTP/1 hand-back, which mon_C04 accepts.
    The proof attempts found D17 (stale owns_attempt, repaired in the crate) and two imprecisions of the
    monitor (D6 follow-on blocker, ri_poph); ocaml/poolrand.ml is the random search that found them. *)
-From HD Require Import common.Base http.Model pool.Model pool.Spec pool.ProofsLite pool.ProofsLite2 pool.ProofsC04.
+From HD Require Import common.Base http.Model pool.Model pool.Spec pool.SpecC04d pool.ProofsLite pool.ProofsLite2 pool.ProofsC04 pool.ProofsC04d.
 
 Theorem c04_monitor_but_D6 : forall cfg ops, mon_C04_but_D6 cfg ops (trace cfg ops) = true.
 Proof. exact mon_C04_but_D6_holds. Qed.
@@ -38,6 +44,12 @@ Print Assumptions c04_monitor_drop.
 Theorem c04_monitor_np : forall cfg ops, mon_C04_np cfg ops (trace cfg ops) = true.
 Proof. exact mon_C04_np_holds. Qed.
 Print Assumptions c04_monitor_np.
+
+(* S3 at the moment a dial starts: the request's own connect is never called while the pool snapshot
+   before the op shows a usable idle connection for its origin *)
+Theorem c04_no_dial_while_idle : forall cfg ops, mon_C04_dial cfg ops (trace cfg ops) = true.
+Proof. exact mon_C04_dial_holds. Qed.
+Print Assumptions c04_no_dial_while_idle.
 
 Theorem c04_reuse_no_connector_partial : forall cfg u p s k t s1 c s2,
   nth u (g_uris cfg) None = Some k -> g_pool cfg = true ->
@@ -88,4 +100,23 @@ Example c04_example :
   /\ mon_C04 cfg reuse (trace cfg reuse) = true
   /\ (let d4 := [Issue 0 H2; Poll 0; Issue 0 H2; Cancel 1; Issue 0 H2; Poll 2] in mon_C04 cfg d4 (trace cfg d4) = true)
   /\ (let d5 := reuse ++ [Finish 1; Poll 1; ConnReady 0; Bg; Issue 0 H1; Cancel 2; Issue 0 H1; Poll 3] in mon_C04 cfg d5 (trace cfg d5) = true).
+Proof. vm_compute. auto. Qed.
+
+(* non-vacuity of the dial clause.  Two holders (connections 0, 1), two queued requests 2, 3 that have
+   not been polled; both holders finish and hand back.  Model (and code): connection 1 is delivered to
+   request 3, which never dials.  [bad]: the observations of the seeded change that drops the waiters
+   behind the first one on an HTTP/1 hand-back (the hand-back of connection 0 loses request 3's place,
+   connection 1 is parked, request 3 dials at its first poll): mon_C04_dial rejects them, mon_C04 does not *)
+Example c04_dial_example :
+  let cfg := mkCfg true None 8 false [Some ("http", "a.test")%string] in
+  let ops := [Issue 0 H1; Issue 0 H1; Poll 0; Poll 1; DialDone 0 (DOk false); DialDone 1 (DOk false); Poll 0; Poll 1;
+              Issue 0 H1; Issue 0 H1; Finish 0; Poll 0; ConnReady 0; Bg; Finish 1; Poll 1; ConnReady 1; Bg; Poll 3] in
+  let parked := [mkSnap 1 [1] 0 0 false] in
+  let bad := firstn 13 (trace cfg ops) ++
+             [mkObs [ERdy 0 true] [] []; mkObs [] [] [1]; mkObs [ERel 1 1; ERes 1 ROk] [] []; mkObs [] [] [];
+              mkObs [ERdy 1 true] parked []; mkObs [EDial 3 ("http", "a.test")%string; EPend 3] parked []] in
+  existsb (fun e => match e with EHand 3 1 _ _ _ _ => true | _ => false end) (o_events (last (trace cfg ops) (mkObs [] [] []))) = true
+  /\ mon_C04_dial cfg ops (trace cfg ops) = true
+  /\ mon_C04_dial cfg ops bad = false
+  /\ mon_C04 cfg ops bad = true.
 Proof. vm_compute. auto. Qed.
